@@ -25,8 +25,8 @@ NOT_APPLICABLE: dict[str, str] = {}
 
 
 def prop(pid: str, explanation: str, rules: list[Rule], thorough: list[Rule] | None = None) -> None:
-    rules = list(rules) + [lambda p, r, _pid=pid: rcustom.rule_rx_added_exit(p, r, _pid), lambda p, r, _pid=pid: rcustom.rule_rx_guard(p, r, _pid), lambda p, r, _pid=pid: rcustom.rule_rk_const(p, r, _pid), lambda p, r, _pid=pid: rcustom.rule_rd_default(p, r, _pid), lambda p, r, _pid=pid: rcustom.rule_rsw(p, r, _pid)]
-    PROPS[pid] = {"explanation": "decides structural necessary conditions only: " + explanation + "; RX-add (no early exit added to an otherwise unchanged anchored function), RX-guard (the statements of an otherwise unchanged anchored function keep their control context), RK-const (module constants keep their reviewed value), RD-default (defaulted parameters keep their default), RSW (no two operands of a reviewed call exchanged)", "rules": rules, "thorough": thorough or []}
+    rules = list(rules) + [lambda p, r, _pid=pid: rcustom.rule_rx_added_exit(p, r, _pid), lambda p, r, _pid=pid: rcustom.rule_rx_guard(p, r, _pid), lambda p, r, _pid=pid: rcustom.rule_rx_edit(p, r, _pid), lambda p, r, _pid=pid: rcustom.rule_rk_const(p, r, _pid), lambda p, r, _pid=pid: rcustom.rule_rd_default(p, r, _pid), lambda p, r, _pid=pid: rcustom.rule_rsw(p, r, _pid)]
+    PROPS[pid] = {"explanation": "decides structural necessary conditions only: " + explanation + "; RX-add (no early exit added to an otherwise unchanged anchored function), RX-guard (the statements of an otherwise unchanged anchored function keep their control context), RX-edit (no single token of an otherwise unchanged anchored function changes what its expression denotes, no live statement deleted), RK-const (module constants keep their reviewed value), RD-default (defaulted parameters keep their default), RSW (no two operands of a reviewed call exchanged)", "rules": rules, "thorough": thorough or []}
 
 
 def gates(pid: str) -> Rule:
